@@ -30,6 +30,9 @@ CONSTANTS MaxPg,      \* model pages 1..MaxPg
           FixFirstRb, \* TRUE = CommitJournal treats an empty database file as "nothing to capture" (as repaired)
           AllowCrash, \* the LiteFS process may die (volatile state lost) and restart on the same data directory
           FixJournalNoPS, \* TRUE = restart with a journal but unknown page size just discards the journal (as repaired)
+          AllowHoles,     \* a growing transaction may leave new pages unwritten (allocated and freed again: SQLite never
+                          \* writes them, the file is extended over them)
+          FixHoles,       \* TRUE = CommitJournal captures such pages from the file (as repaired, f24d514)
           AllowFreeReuse, \* transactions may overwrite free pages without journalling them (SQLite: free-list leaves)
           AllowFromWal,   \* journal-mode switch from WAL back to a rollback journal reachable
           FixModeSwitch,  \* TRUE = creating a journal puts the database in rollback mode (as repaired, fa80c49)
@@ -40,6 +43,8 @@ CONSTANTS MaxPg,      \* model pages 1..MaxPg
 
 Pages == 1..MaxPg
 ZERO == [v |-> 0, sz |-> 0, wal |-> FALSE]
+\* a page of zero bytes that exists only because the file was extended over it (its checksum is not "unset")
+ZP == [v |-> 0 - 1, sz |-> 0, wal |-> FALSE]
 Max(S) == CHOOSE x \in S : \A y \in S : y <= x
 SeqOfSet(S) == CHOOSE f \in [1..Cardinality(S) -> S] : \A a, b \in 1..Cardinality(S) : a < b => f[a] < f[b]
 Range(f) == {f[x] : x \in DOMAIN f}
@@ -99,6 +104,10 @@ ResetAfter(pc0, bl0, n) ==
   IN <<[p \in 1..Len(pc0) |-> IF p \in idx THEN ZERO ELSE pc0[p]],
        [b \in 1..Len(bl0) |-> IF \E p \in idx : BlockOf[p] + 1 = b THEN INV ELSE bl0[b]]>>
 
+RECURSIVE SetHoles(_, _, _)
+SetHoles(pc0, bl0, S) == IF S = {} THEN <<pc0, bl0>>
+                         ELSE LET p == CHOOSE x \in S : TRUE  r == SetPChk(pc0, bl0, p, dbf[p]) IN SetHoles(r[1], r[2], S \ {p})
+
 \* the cached aggregate of block b: the cache holds a value only if not invalidated; a cached value
 \* is whatever was computed when it was filled.  Filling happens inside checksum(); we keep the
 \* cache as INV or Val(aggregate set).
@@ -144,7 +153,9 @@ NewContent(p) == [v |-> plan.v, sz |-> IF p = 1 THEN plan.ns ELSE 0, wal |-> IF 
 FreeContent(p) == [v |-> plan.v + 300, sz |-> 0, wal |-> FALSE]
 \* what SQLite sees after a rollback: the previous image, except the reused free pages
 RolledBackImage == [p \in 1..Len(refImg) |-> IF p \in plan.F THEN FreeContent(p) ELSE refImg[p]]
-NewImage == [p \in 1..plan.ns |-> IF p \in plan.M THEN NewContent(p) ELSE IF p <= Len(refImg) THEN refImg[p] ELSE ZERO]
+PlanU == IF plan.kind = "j" THEN plan.U ELSE {}
+NewImage == [p \in 1..plan.ns |-> IF p \in plan.M THEN NewContent(p) ELSE IF p <= Len(refImg) THEN refImg[p]
+                                   ELSE IF p \in PlanU THEN ZP ELSE ZERO]
 
 (* ====================== history ====================== *)
 Obs == [t |-> pos'.t, n |-> pageN', m |-> mode', f |-> fault', nl |-> ltxN', i |-> (pc' = "idle")]
@@ -166,8 +177,12 @@ BeginJ ==
   /\ \E ns \in 1..MaxPg, out \in {"commit", "rb_early", "rb_spill"}, fin \in FinModes, nosync \in BOOLEAN, toWal \in BOOLEAN :
      \E M \in SUBSET (1..ns) :
      \E E \in (IF AllowBeyond /\ out = "commit" THEN SUBSET ((ns + 1)..MaxPg) ELSE {{}}),
-        F \in (IF AllowFreeReuse /\ out = "rb_spill" THEN SUBSET ((2..CurSize) \ M) ELSE {{}}) :
-       /\ 1 \in M /\ M \subseteq 1..ns /\ (((CurSize + 1)..ns) \ {LockPg}) \subseteq M /\ LockPg \notin M
+        F \in (IF AllowFreeReuse /\ out = "rb_spill" THEN SUBSET ((2..CurSize) \ M) ELSE {{}}),
+        U \in (IF AllowHoles /\ out = "commit" /\ ns > CurSize + 1 THEN SUBSET (((CurSize + 1)..(ns - 1)) \ (M \cup {LockPg})) ELSE {{}}) :
+       \* U: new pages that the transaction allocated and freed again: never written, the file grows over them
+       \* (the last page is always written, that is what extends the file)
+       /\ 1 \in M /\ M \subseteq 1..ns /\ (((CurSize + 1)..ns) \ {LockPg}) \subseteq (M \cup U) /\ LockPg \notin M
+       /\ (U # {} => E = {} /\ ~toWal)
        /\ ns # LockPg          \* SQLite never ends a database on the lock page (it skips it when it grows)
        \* E: pages beyond the committed size that were spilled to the file during the transaction and
        \* then freed again (incremental vacuum): written, but not part of the committed database
@@ -185,11 +200,11 @@ BeginJ ==
        \* with real SQLite in the T3 tier): no journal file exists while the database is in WAL mode
        /\ (toWal => fin = "DELETE")
        /\ plan' = [kind |-> "j", ns |-> ns, M |-> M, out |-> out, fin |-> fin, nosync |-> nosync,
-                   wal |-> toWal, v |-> ops + 1, E |-> E, F |-> F,
+                   wal |-> toWal, v |-> ops + 1, E |-> E, F |-> F, U |-> U,
                    \* whether the journal file existed already (left by PERSIST / TRUNCATE): LiteFS then sees an
                    \* open, not a create - kept in the plan so that both ways of reaching a state are emitted
                    jpre |-> jr.ex]
-       /\ H("BeginJ", [ns |-> ns, M |-> M, out |-> out, fin |-> fin, nosync |-> nosync, wal |-> toWal, v |-> ops + 1, E |-> E, F |-> F])
+       /\ H("BeginJ", [ns |-> ns, M |-> M, out |-> out, fin |-> fin, nosync |-> nosync, wal |-> toWal, v |-> ops + 1, E |-> E, F |-> F, U |-> U])
 
 (* ---------------- rollback-journal protocol ---------------- *)
 \* leaving WAL mode: the (empty) log is unlinked; RemoveWAL clears LiteFS's frame bookkeeping
@@ -226,7 +241,7 @@ JSync ==     \* fsync + magic/nRec written into the header, before the first dat
 DBWriteEff(p, c) ==
   LET r == SetPChk(pchk, blk, p, c) IN
   /\ dbf' = IF p <= Len(dbf) THEN [dbf EXCEPT ![p] = c]
-            ELSE dbf \o [i \in 1..(p - Len(dbf)) |-> IF Len(dbf) + i = p THEN c ELSE ZERO]
+            ELSE dbf \o [i \in 1..(p - Len(dbf)) |-> IF Len(dbf) + i = p THEN c ELSE IF (Len(dbf) + i) \in PlanU THEN ZP ELSE ZERO]
   /\ pchk' = r[1] /\ blk' = r[2]
   /\ dirty' = IF mode = "rb" THEN dirty \cup {p} ELSE dirty
 
@@ -287,11 +302,14 @@ JFinal ==
           /\ fault' = "dbsize-eof"
           /\ UNCHANGED <<jr, dirty, ltxN, ltxLast, pageN, pos, mode, pchk, blk, mvars, refImg>>
      ELSE LET commit == dbf[1].sz
-              pgs == {p \in dirty : p <= commit /\ p # LockPg}
+              \* as repaired: pages the database grew over without a write are taken from the file
+              holes == IF FixHoles THEN {p \in (pageN + 1)..commit : p \notin dirty /\ p # LockPg /\ p <= Len(dbf)} ELSE {}
+              hp == SetHoles(pchk, blk, holes)
+              pgs == {p \in dirty \cup holes : p <= commit /\ p # LockPg}
               readErr == \E p \in pgs : p > Len(dbf)
-              mismatch == \E p \in pgs : p <= Len(dbf) /\ PChk(pchk, p) # dbf[p]
+              mismatch == \E p \in pgs : p <= Len(dbf) /\ PChk(hp[1], p) # dbf[p]
               snapBad == pos.t = 0 /\ pgs # {q \in 1..commit : q # LockPg}
-              r == ResetAfter(pchk, blk, commit)
+              r == ResetAfter(hp[1], hp[2], commit)
               cs == Checksum(r[1], r[2], commit, <<>>)
               newMode == IF 1 \in pgs /\ dbf[1].wal THEN "wal" ELSE "rb"
               e == [min |-> pos.t + 1, max |-> pos.t + 1, pre |-> pos.c, post |-> cs.c, commit |-> commit,
